@@ -12,6 +12,7 @@ import (
 	"os"
 	"strings"
 	"sync"
+	"sync/atomic"
 	"time"
 
 	"net/http/httptest"
@@ -57,6 +58,8 @@ func scan(opts *stack.Opts) *stack.Snapshot {
 	return s
 }
 
+var fresh int64
+
 // decorate sets what GuessPaths would have found, so that every branch of the
 // HTML link helpers runs (well-formed, vendored, versioned and malformed
 // github.com / golang.org paths, the standard library).
@@ -79,6 +82,10 @@ func decorate(s *stack.Snapshot) {
 		x := rels[k%len(rels)]
 		k++
 		c.RelSrcPath, c.Location, c.ImportPath = x.rel, x.loc, x.imp
+		if strings.HasSuffix(x.rel, "/file.go") {
+			// a malformed path no rendering has met before (no link is produced for it, the page is the same)
+			c.RelSrcPath = strings.TrimSuffix(x.rel, "file.go") + fmt.Sprintf("file%d.go", atomic.AddInt64(&fresh, 1))
+		}
 	}
 	for _, g := range s.Goroutines {
 		for i := range g.Stack.Calls {
